@@ -209,6 +209,8 @@ class Ctx:
         self.prop = prop
         self.tier = tier
         self._facts = {}
+        with Lock():
+            ensure_driver()
         self.tree = tree_hash()
         self.rebuilt = []
 
